@@ -155,4 +155,28 @@ PROPS = {
         "not_covered": ["that the cfb8/aes crates implement CFB-8/AES (their block contract is the definition, assumed)"],
         "assumptions": ["Pin erased (all types Unpin, R10)", "block size of cfb8::Encryptor is 1 byte (BlockSizeUser)"],
     },
+    "C11": {
+        "units": ["U6"],
+        "level": "proof",
+        "witness": [(r".", "mchash")],
+        "sweep": ["mchash"],
+        "explanation": "minecraft_hash is verified verbatim against mc_hash = signed_hex(signed_be(sha1(utf8(server id) ++ secret ++ public key))), written from the "
+                       "protocol description: the three inputs are absorbed once each in this order, the digest is read as a signed big-endian number and printed "
+                       "in radix 16. SHA-1 is uninterpreted; the sha1 and num-bigint calls carry assumed contracts (update appends, from_signed_bytes_be is "
+                       "two's complement, to_str_radix(16) is sign + minimal lowercase hex) which the thorough tier checks against published vectors.",
+        "not_covered": ["the SHA-1 function itself and num-bigint's internals (assumed contracts)"],
+        "assumptions": ["sha1::Digest::update appends, finalize hashes everything absorbed", "num_bigint::BigInt::{from_signed_bytes_be, to_str_radix} as documented"],
+    },
+    "C12": {
+        "units": ["U7", "U6"],
+        "level": "proof",
+        "witness": [(r".", "mojang")],
+        "sweep": ["mojang"],
+        "explanation": "MojangAdapter::authenticate is extracted up to the point where the request leaves /repo (Client::get); that call carries the property as "
+                       "its precondition: URL text == fixed endpoint ++ '?' ++ form_encode([(username, claimed name), (serverId, hash)]) with the hash equal to "
+                       "mc_hash(server id, secret, key) by U6's contract. It is proved for every user name (arbitrary Seq<char>), server id and secret; a URL "
+                       "assembled by string formatting fails it because pct(name) == name cannot be shown.",
+        "not_covered": ["response handling after get() (send, status check, JSON decoding): cut by R17b, irrelevant to the property"],
+        "assumptions": ["url crate: Url::parse_with_params appends each pair form-encoded, and a conforming server decodes form_encode(pairs) back to exactly pairs"],
+    },
 }
